@@ -1271,6 +1271,9 @@ class Session:
                 if not rep.get("consistent"):
                     run.harness_error(oname, ob.family, {"witness": out.witness, "why": rep.get("why")}, out.seconds)
                     continue
+                if rep.get("inconclusive"):
+                    run.inconclusive(oname, ob.family, {"witness": out.witness, "why": rep.get("why") or rep.get("what")}, out.seconds)
+                    continue
                 if not rep.get("reproduced"):
                     run.harness_error(oname, ob.family, {"witness": out.witness, "why": "the solver witness does not "
                                                          "reproduce on the real lexer: " + str(rep.get("what"))}, out.seconds)
@@ -1925,3 +1928,88 @@ def ob_no_eda(sess: Session, name: str, family: str, N: int, loop_index: int, ti
                          f"_master_re.match({prefix!r} + {pump!r}*n + {res['suffix']!r}): {why}")}
 
     return Obligation(name, family, N, build, replay, [], timeout=timeout, max_rounds=1)
+
+
+# --------------------------------------------------------------------------------------------------
+# counted repeats whose upper bound lies beyond the text bound N ("repeat-bounds")
+# --------------------------------------------------------------------------------------------------
+def _path_to_match(nfa: Nfa, start: int, chars: Sequence[str]) -> Optional[str]:
+    from collections import deque
+    seen = {start: ""}
+    dq = deque([start])
+    while dq:
+        s = dq.popleft()
+        k = nfa.kind[s]
+        if k == Nfa.MATCH:
+            return seen[s]
+        nxt: List[Tuple[int, str]] = []
+        if k == Nfa.CHAR:
+            cls = nfa.cls[s]
+            if cls:
+                pref = [i for i in cls if 33 <= i < 127] or sorted(cls)
+                nxt.append((nfa.a[s], chars[pref[0]]))
+        elif k == Nfa.SPLIT:
+            nxt += [(nfa.a[s], ""), (nfa.b[s], "")]
+        else:
+            nxt.append((nfa.a[s], ""))
+        for t, ch in nxt:
+            if t is not None and t not in seen:
+                seen[t] = seen[s] + ch
+                dq.append(t)
+    return None
+
+
+def check_repeat_caps(run, sess: Session, N: int, rules: Iterable[str], expected: Dict[str, Iterable[int]],
+                      refs: Dict[str, Tuple[str, int]], family: str = "repeat-bounds(structure + replay)") -> None:
+    """Counted repeats {m,n} with n > N are invisible to the bounded circuit (they behave like unbounded ones inside N).
+    For each of them in the given rules: the numeric bound must be one the reference also has (`expected[rule]`);
+    otherwise a witness of n + 1 iterations is built from the NFA (path to the loop, one iteration, path to the end of the
+    rule) and replayed: if the reference language (`refs[rule]` = (python regex, flags)) contains the whole text but the
+    real lexer does not produce that one token, that is a VIOLATION.  Structural reading of the live pattern plus a concrete
+    replay - not a solver verdict."""
+    eng = sess.engines[N]
+    rules = set(rules)
+    for li, lp in enumerate(eng.nfa.loops):
+        if lp["max"] is None or lp["rule"] not in rules:
+            continue
+        rule, cap = lp["rule"], lp["max"]
+        name = f"repeat-bounds:{rule}#loop{li}:{{{lp['min']},{cap}}}"
+        if cap in set(expected.get(rule, ())):
+            run.discharged(name + " equals the reference's bound", family, nontrivial=False)
+            continue
+        entry = dict(eng.rules)[rule]
+        prefix = _path_to(eng.nfa, entry, lp["state"], eng.alphabet.chars)
+        pump = _path_to(eng.nfa, lp["body"], lp["state"], eng.alphabet.chars)
+        exit_ = eng.nfa.b[lp["state"]] if lp["greedy"] else eng.nfa.a[lp["state"]]
+        tail = _path_to_match(eng.nfa, exit_, eng.alphabet.chars)
+        if prefix is None or not pump or tail is None or rule not in refs:
+            run.inconclusive(name, family, "the live pattern bounds a repeat that the reference does not bound, and no witness could "
+                                           "be built from the NFA (or no reference language is known for this rule)")
+            continue
+        text = prefix + pump * (cap + 1) + tail
+        ref, flags = refs[rule]
+        real = sess.spec.real_lex1(text)
+        tok = sess.spec.tokenize_first(text)
+        if re.fullmatch(ref, text, flags) is None:
+            run.inconclusive(name, family, {"why": "bounded repeat without a counterpart in the reference; the constructed text is not "
+                                                   "in the reference language, so nothing is claimed", "length": len(text)})
+        elif real == (rule, len(text)) and (tok is None or tok == real):
+            run.discharged(name + f": a token with {cap + 1} iterations is still lexed as one {rule}", family, nontrivial=False)
+        else:
+            wit = {"python": f"{prefix!r} + {pump!r} * {cap + 1} + {tail!r}", "length": len(text), "expected": [rule, len(text)],
+                   "real_lexer": list(real), "how_to_replay": "ODataLexer._master_re.match(text) / list(ODataLexer().tokenize(text))"}
+            run.violation(name, wit, f"rule {rule} bounds a repeat at {cap} that the reference grammar does not bound: the {len(text)}-character "
+                                     f"text {prefix!r}+{pump!r}*{cap + 1}+{tail!r} is lexed as {real[0]} of extent {real[1]} instead of one {rule} token",
+                          family)
+
+
+def scaled_spec(spec: LexSpec, rule: str, cap: int, k: int) -> Optional[LexSpec]:
+    """the live pattern with every `{m,cap}` of `rule` replaced by `{m,k}` (the counted-repeat structure at a small scale)"""
+    try:
+        src = _rule_source(spec.pattern, rule)
+    except ValueError:
+        return None
+    new = re.sub(r"\{(\d*),%d\}" % cap, lambda m: "{%s,%d}" % (m.group(1), k), src)
+    if new == src:
+        return None
+    return respec(spec, spec.pattern.replace(src, new))
